@@ -46,7 +46,7 @@ pub fn run_generators(env: &TypeEnv, actor: &Option<Type>, prog: &IDLMergedProg,
         let a = guard(|| f());
         let b = guard(|| f());
         let v = match (a, b) {
-            (Ok(x), Ok(y)) => if keep { json!({"ok": 1, "same": (x == y) as u8, "text": x}) } else { json!({"ok": 1, "same": (x == y) as u8}) },
+            (Ok(x), Ok(y)) => if keep { json!({"ok": 1, "same": (x == y) as u8, "text": cps(&x)}) } else { json!({"ok": 1, "same": (x == y) as u8}) },
             (Err(s), _) | (_, Err(s)) => json!({"panic": s}),
         };
         out.insert(name.to_string(), v);
@@ -56,8 +56,22 @@ pub fn run_generators(env: &TypeEnv, actor: &Option<Type>, prog: &IDLMergedProg,
 pub fn case(idx: usize, mode: &str, src: &str, accepted: bool, origin: &str) -> Value {
     if !accepted { return json!({"idx": idx, "kind": "skip"}); }
     let c = match crate::prog::check_src(src) { Ok(Ok(c)) => c, _ => return json!({"idx": idx, "kind": "skip"}) };
+    if mode == "js" {
+        // C17: only programs with a main service
+        if c.actor.is_none() { return json!({"idx": idx, "kind": "skip"}); }
+        let (js, st) = match guard(|| javascript::compile(&c.env, &c.actor)) { Ok(t) => (t, json!({"ok": 1})), Err(s) => (String::new(), json!({"panic": s})) };
+        return json!({"idx": idx, "kind": "js", "origin": origin, "src": src.chars().take(2000).collect::<String>(), "g": crate::prog::graph(&c, "s"), "js": js, "js_status": st});
+    }
     let merged = IDLMergedProg::new(c.src.parse::<IDLProg>().unwrap());
     let gens = run_generators(&c.env, &c.actor, &merged, true);
     let _ = mode;
-    json!({"idx": idx, "kind": "bind", "origin": origin, "src": src.chars().take(2000).collect::<String>(), "g": crate::prog::graph(&c, "s"), "gens": gens})
+    // methods of the main service; counted only when each name occurs once in the whole program
+    let main: Vec<String> = match c.actor.as_ref().map(|a| a.as_ref()) {
+        Some(TypeInner::Service(ms)) => ms.iter().map(|m| m.0.clone()).collect(),
+        Some(TypeInner::Class(_, s)) => match c.env.trace_type(s).map(|t| t.as_ref().clone()) { Ok(TypeInner::Service(ms)) => ms.iter().map(|m| m.0.clone()).collect(), _ => vec![] },
+        Some(TypeInner::Var(_)) => match c.env.trace_type(c.actor.as_ref().unwrap()).map(|t| t.as_ref().clone()) { Ok(TypeInner::Service(ms)) => ms.iter().map(|m| m.0.clone()).collect(), _ => vec![] },
+        _ => vec![],
+    };
+    let uniq = main.iter().all(|m| src.matches(&crate::hash::lit(m)).count() + src.matches(&format!("{m} :")).count() == 1);
+    json!({"idx": idx, "kind": "bind", "origin": origin, "src": src.chars().take(2000).collect::<String>(), "methods": main.iter().map(|m| cps(m)).collect::<Vec<_>>(), "count_methods": uniq as u8, "gens": gens})
 }
